@@ -925,6 +925,18 @@ func genMsgProgs(c *Ctx) {
 	c.run("prog", "m=MultipartRequest(Header(4,18,0,7),2,0,x00000000,~);b=NewAggregateStats();$m.Body=$b;!m")
 }
 
+// msgDeepCTFlowMod: a flow-mod whose apply-actions instruction holds one conntrack action nested `depth` levels deep
+// (the innermost level holds an output action)
+func msgDeepCTFlowMod(depth int) []byte {
+	inner := nb().u16(0, 16).u32(7).u16(0xffff).z(6).b
+	for i := 0; i < depth; i++ {
+		inner = nb().u16(0xffff, 24+len(inner)).u32(0x2320).u16(35, i&1).u32(0).u16(0).u8(0xff).z(3).u16(0).raw(inner).b
+	}
+	instr := nb().u16(4, 8+len(inner)).z(4).raw(inner).b
+	body := nb().q(1, 0).u8(0, 0).u16(0, 0, 100).u32(0xffffffff, 0xffffffff, 0xffffffff).u16(0).z(2).u16(1, 4).z(4).raw(instr).b
+	return ofFrame(14, 7, body)
+}
+
 // ---- Parse ----------------------------------------------------------------------------------------------------------------
 
 func genMsgParse(c *Ctx) {
@@ -973,6 +985,19 @@ func genMsgParse(c *Ctx) {
 	}
 	for _, ty := range []int{0, 3, 6, 7, 8, 13, 65535} {
 		c.decFew("parse", "", ofFrame(18, 7, nb().u16(ty, 0).z(4).b))
+	}
+
+	// conntrack actions nested to depth d inside an apply-actions instruction of a flow-mod (every level re-sizes the
+	// levels below it: the cost must stay polynomial in the depth)
+	depths := []int{9, 10, 11, 33, 40, 64, 200}
+	if c.thorough() {
+		depths = append(depths, 700, 2000, 2700)
+	}
+	for _, d := range depths {
+		fr := msgDeepCTFlowMod(d)
+		c.decCase("parse", "", fr, 0)
+		c.decCase("parse", "", fr[:len(fr)-1], 0)
+		c.decCase("parse", "", fr, 24)
 	}
 
 	// switch-originated frames, hand-encoded per OpenFlow 1.3
